@@ -10,6 +10,7 @@ import (
 	"encoding/json"
 	"errors"
 	"fmt"
+	"os"
 	"strings"
 	"testing"
 	"time"
@@ -21,7 +22,13 @@ import (
 	"tunnox-core/verif/vkit"
 )
 
-func TestMain(m *testing.M) { vkit.Main(m, "C13") }
+func TestMain(m *testing.M) {
+	if os.Getenv("VERIF_SHRINKTIME") == "" {
+		// every run with a sleep costs >= 36 ms and seq/diff cases are minimised by the harness itself
+		os.Setenv("VERIF_SHRINKTIME", "6s")
+	}
+	vkit.Main(m, "C13")
+}
 
 // Case is the replay unit of all three parts.
 type Case struct {
@@ -269,7 +276,28 @@ func classify(op Op, class, writer, symptom string, got, want Res, stored kstate
 	if actsAlive {
 		w = "/acts-alive"
 	}
-	return fmt.Sprintf("C13/memory/%s/on=%s%s/%s", op.ttlTag(), class, w, symptom)
+	return fmt.Sprintf("C13/memory/%s/on=%s%s/%s", opTag(op), coarse(class, got, want), w, symptom)
+}
+
+// opTag: the op, marked when it carries the special zero lifetime.
+func opTag(op Op) string {
+	if op.TTL == ttlZero {
+		return op.Kind + "[ttl=0]"
+	}
+	return op.Kind
+}
+
+// coarse drops the value kind from a state class unless a type error is involved.
+func coarse(class string, got, want Res) string {
+	if got.Err == "type" || want.Err == "type" {
+		return class
+	}
+	for _, p := range []string{"expired", "never-expiring", "ttl"} {
+		if strings.HasPrefix(class, p+"-") {
+			return p
+		}
+	}
+	return class
 }
 
 func note(feats map[string]bool, op Op, class string, want Res) {
